@@ -1,8 +1,8 @@
 SPECIFICATION Spec
 CONSTANTS
+  Base = {"a", "A", "0", ".", "-", "_", ":", "/", "@", "[", "]", "!"}
   MaxFlat = 4
   MaxMacroFlat = 2
   PartsLevel = 1
 INVARIANT MCLaws
-INVARIANT Emit
 CHECK_DEADLOCK FALSE
